@@ -57,7 +57,9 @@ THEOREMS = [
         "colSU_options colFD_options "
         # third phase: damped rigid-body modes of uncoupled systems (findings F51 / F52, repaired code)
         "rbDamp_den frfRb_damped_solves frfRb_damped_reduces frfRbD_zero_freq frfRb_zero_freq_unsolvable "
-        "rbDamp_den_ne_zero_real rbDampRows_correct damped_rb_instances rbAccD_length"
+        "rbDamp_den_ne_zero_real rbDampRows_correct damped_rb_instances rbAccD_length "
+        # Props/C02j: SolveUnc = FreqDirect at full size (uncoupled), the full-size equation for every option value
+        "partStiff_unc_su_eq_fd colSU_eq_colFD_unc colSU_solves_options"
     ).split()
 ]
 TRUSTED = [
